@@ -1,5 +1,6 @@
 import SlotVerif.Model.Progress
 import SlotVerif.Proofs.Spec
+import SlotVerif.Props.C08
 /-!
 # C13 — Equalities are never lost and old handles stay valid
 
@@ -7,7 +8,11 @@ Spec side: `Cong`, redundancy and symmetry are monotone in the set of asserted e
 Measure side: every operation whose logged events satisfy `stepOK` moves the progress measure in
 its documented (lexicographic) direction, strictly unless nothing was logged; hence a run of any
 length is monotone, and "unchanged measure" is equivalent to "no event at all" — the fact
-`apply_rewrites` relies on (C15).
+`apply_rewrites` relies on (C15).  Union-find side (`unionfind_get_impl`, the mechanism that keeps old handles
+usable): `handle_survives_compression` — whatever compressing lookups are performed in between, an invocation
+that could be canonicalised before is canonicalised to the same leader invocation afterwards
+(`Proofs/UnionFind.lean`); that a *union* keeps old ids resolvable is judged per run (every handle ever returned is
+re-canonicalised, compared and extracted from after every later operation).
 -/
 namespace SV.C13
 open SV SV.Measure
@@ -101,5 +106,12 @@ theorem unchanged_iff_no_event {evs : List Ev} {a b : Measure} (h : stepOK evs a
 example : stepOK [.alloc] ⟨3, 3, 4, 3⟩ ⟨4, 4, 6, 4⟩ = true ∧ stepOK [.merge, .addsym] ⟨4, 4, 6, 4⟩ ⟨4, 3, 4, 7⟩ = true ∧
     stepOK [.shrink] ⟨4, 3, 4, 7⟩ ⟨4, 3, 3, 2⟩ = true ∧ stepOK [.addsym] ⟨4, 3, 3, 2⟩ ⟨4, 3, 3, 6⟩ = true ∧
     stepOK [] ⟨4, 3, 3, 6⟩ ⟨4, 3, 3, 6⟩ = true ∧ stepOK [.addsym] ⟨4, 3, 3, 6⟩ ⟨4, 3, 3, 6⟩ = false := by decide
+
+/-- **old handles stay valid across path compression**: any number of compressing `find`s changes the canonical form
+of no invocation -/
+theorem handle_survives_compression {s : Snap} (hok : Snap.ufOK s = true) {ids : List Nat} {uf' : List AppId}
+    (h : Snap.compressAll s.uf ids = some uf') {a b : AppId} (ha : Snap.find s a = some b) :
+    Snap.find { s with uf := uf' } a = some b :=
+  SV.C08.compress_preserves_find hok h ha
 
 end SV.C13
